@@ -47,6 +47,40 @@ for _n in (2, 3, 4):
     _euler(_n)
 
 
+@harness("C06", "max_euler_step_cb.no_stale_bounds", functions=[ODE + ":get_odesys.<locals>.max_euler_step_cb"], kind="shape-bounded", div_mode="fork", samples=0, max_paths=3000)
+def _(v):
+    """the callback is used repeatedly on one odesys: the second call must use the bounds and right-hand side of ITS state"""
+    from chempy.kinetics.ode import get_odesys
+    from chempy.chemistry import Reaction, Substance
+    from chempy.reactionsystem import ReactionSystem
+    from contracts.C04 import FakeSymbolicSys
+    names = ["A", "B"]
+    subs = [Substance(s, composition={1: 1}) for s in names]
+    rsys = ReactionSystem([Reaction({"A": 1}, {"B": 1}, 1.0, checks=())], subs, checks=())
+    state = {"call": 0}
+    ys = [[v.real("y%d_%s" % (c, s), lo=0, hi=100) for s in names] for c in (0, 1)]
+    ubs = [[v.real("ub%d_%s" % (c, s), lo=0, hi=1000) for s in names] for c in (0, 1)]
+    fs = [[v.real("f%d_%s" % (c, s), lo=-1e3, hi=1e3) for s in names] for c in (0, 1)]
+    v.assume(SP.conj([y <= ub for c in (0, 1) for y, ub in zip(ys[c], ubs[c])]))
+
+    def bounds(v_, self, init_concs, **kw):
+        c = 0 if init_concs is ys[0] else 1
+        return list(ubs[c])
+    v.contract(ReactionSystem.upper_conc_bounds, "upper_conc_bounds", None, bounds)
+
+    class Sys(FakeSymbolicSys):
+        def f_cb(self, x, y, p):
+            return list(fs[0 if y is ys[0] else 1])
+    odesys, extra = v.call(get_odesys, rsys, SymbolicSys=Sys)
+    cb = extra["max_euler_step_cb"]
+    v.call(cb, 0.0, ys[0])
+    h = v.call(cb, 0.0, ys[1])
+    v.prove_nl("second_call.step_is_non_negative", h >= 0)
+    for y, ub, f, s in zip(ys[1], ubs[1], fs[1], names):
+        v.prove_nl("second_call.stays_non_negative_" + s, y + h * f >= 0)
+        v.prove_nl("second_call.stays_below_bound_" + s, y + h * f <= ub)
+
+
 @harness("C06", "no_callback_without_compositions", functions=[ODE + ":get_odesys"], kind="shape-bounded", samples=0)
 def _(v):
     from chempy.kinetics.ode import get_odesys
